@@ -265,7 +265,7 @@ def trim(case, n=400):
     return t(case)
 
 
-def run(ctx, only_cases=None):
+def run(ctx, only_cases=None, only_probes=None):
     thorough = ctx.tier == "thorough"
     rng = ctx.rng
     binary = vlib.build_harness(PROP)
@@ -280,7 +280,7 @@ def run(ctx, only_cases=None):
 
     if only_cases is not None:
         cases = only_cases
-        probes, invalid = [], []
+        probes, invalid = list(only_probes or []), []
     else:
         cases = load_corpus() + directed_cases(rng)
         n_virtual = 3000 if thorough else 220
@@ -291,7 +291,7 @@ def run(ctx, only_cases=None):
             cases.append(gen_case(rng, BACKENDS[i % len(BACKENDS)], True, big_ok=(i % 9 == 0)))
         cases += poll_cases(rng, 24 if thorough else 6)
         invalid = invalid_cases(rng, 120 if thorough else 30)
-        probes = [{"backend": b, "stream": "probe"} for b in BACKENDS + ["mapshape"]]
+        probes = [{"backend": b, "stream": "probe"} for b in BACKENDS + ["mapshape", "race"]]
     outs = vlib.run_harness(binary, cases, timeout=1500, env={"VERIF_C09_PAR": "48" if thorough else "32"})
 
     # (iii) the property's predicate evaluated by the harness on the real code's own answers
@@ -351,6 +351,18 @@ def run(ctx, only_cases=None):
             d.setdefault("example", {"field": c["field"], "bytes": c["ops"][0]["rec"][c["field"]], "message": o["prop_msg"][:300]})
     probe_rep = {}
     for p in probe_out:
+        if p["backend"] == "race":
+            probe_rep["schedule_probe_lookup_Get_Delete_window"] = {
+                "lookup_of_expired_record_by_node_B": p.get("race_lookup_b"), "fresh_registration_afterwards": p.get("race_after"),
+                "fresh_registration_lost": p["race_lost"]}
+            if p["race_lost"]:
+                ctx.violation("expired-lookup-deletes-fresh-registration",
+                              "real tunnel.RoutingTable (backend still holding the key after ExpiresAt): A.Register(T,first) ttl=60ms; 90 ms later "
+                              "B.LookupWaitingTunnel(T) reads the expired record; between its Get and its Delete A.Register(T,second); "
+                              "B's Delete removes the fresh record: B's lookup answered %s and the next lookup of T answers %s although "
+                              "'second' was registered milliseconds ago" % (p.get("race_lookup_b"), p.get("race_after")),
+                              {"probe": {"backend": "race", "stream": "probe"}, "observed": p})
+            continue
         probe_rep[p["backend"]] = {
             "value_shape_returned_by_Get": p["shape"],
             "caller_mutation_after_Register_visible_to_lookups": p["aliased"],
@@ -399,7 +411,7 @@ def run(ctx, only_cases=None):
                 "by the harness from measured clock readings (ambiguous ones are counted, not judged) and every history without "
                 "invalid UTF-8 is replayed on the extracted Coq model.",
         "samples": [{"case": trim(cases[i]), "observed": [x["res"] for x in outs[i]["obs"]]}
-                    for i in (0, len(cases) // 2, len(cases) - 1) if i < len(cases)],
+                    for i in (0, len(cases) // 2, len(cases) - 1) if 0 <= i < len(cases)],
         "model_vs_impl_cases": len(terms), "model_vs_impl_mismatches": len(mism), "impl_property_failures": nfail,
         "lookups_and_address_reads_judged": judged, "ambiguous_steps_not_judged": amb,
         "ambiguous_steps_in_model_replay": n_amb_model,
@@ -422,4 +434,8 @@ def run(ctx, only_cases=None):
 
 def replay(ctx, path):
     r = json.load(open(path))
-    run(ctx, only_cases=[r["replay"]["case"]])
+    rp = r["replay"]
+    if "case" in rp:
+        run(ctx, only_cases=[rp["case"]])
+    else:
+        run(ctx, only_cases=[], only_probes=[rp.get("probe", {"backend": "race", "stream": "probe"})])
